@@ -81,9 +81,16 @@ def _dut_class():
 
 def _parse_cfg(cfg: str) -> dict:
     t = dict(x.split("=", 1) for x in cfg.split()[1:])
-    ka, kb, kc, ne = (int(x) for x in t["fn"].split(","))
+    ka, kb, kc, ne, kn = (int(x) for x in t["fn"].split(","))
     prog = [] if t["prog"] == "-" else t["prog"].split(",")
-    return dict(w=int(t["w"]), ka=ka, kb=kb, kc=kc, ne=ne, prog=prog)
+    return dict(w=int(t["w"]), ka=ka, kb=kb, kc=kc, ne=ne, kn=kn, prog=prog)
+
+
+def fn_ret(cfg: dict, log: list, a: int, x: int):
+    """the mocked Python function of the scenarios: None for some (history dependent) calls, else a value"""
+    if cfg["kn"] > 0 and (a + len(log)) % cfg["kn"] == 0:
+        return None
+    return (cfg["ka"] * a + cfg["kb"] * len(log) + cfg["kc"] * sum(log) + x) % 2**W
 
 
 def _parse_cyc(op: str) -> dict:
@@ -92,7 +99,8 @@ def _parse_cyc(op: str) -> dict:
     for p in t["p"].split(","):
         f = p.split("x")
         phases.append((int(f[0]), None) if len(f) == 1 else (int(f[0]), (int(f[1]), int(f[2]))))
-    return dict(phases=phases, e=int(t["e"]), men=int(t["men"]), val=int(t["val"]))
+    xs = [int(v) for v in t["xs"].split(",")]
+    return dict(phases=phases, e=int(t["e"]), men=int(t["men"]), val=int(t["val"]), x=int(t["x"]), xs=xs)
 
 
 _last: dict = {}
@@ -101,7 +109,7 @@ _last: dict = {}
 def simulate(case: Case) -> dict:
     """Run the REAL TestbenchIO / CallTrigger / MethodMock in PysimSimulator; return raw observations."""
     from transactron.testing import SimpleTestCircuit
-    from transactron.testing.method_mock import MethodMock
+    from transactron.testing.method_mock import MethodMock, def_method_mock
     from transactron.testing.simulator import PysimSimulator
     from transactron.utils.dependencies import DependencyContext, DependencyManager
 
@@ -119,6 +127,8 @@ def simulate(case: Case) -> dict:
     rows: list[list[int]] = []
     edges = [0]
     men_iter = iter([c["men"] for c in cycles] + [0] * 4)
+    pyx = [cycles[0]["xs"][0] if cycles else 0]  # Python-side state (not a signal) read by the mocked function
+    kwinfo: list[str] = []
 
     dm = DependencyManager()
     with DependencyContext(dm):
@@ -128,15 +138,16 @@ def simulate(case: Case) -> dict:
 
         def mocked(a):
             a = int(a)
-            r = (cfg["ka"] * a + cfg["kb"] * len(efflog) + cfg["kc"] * sum(efflog)) % mod
+            x = pyx[0]
+            r = fn_ret(cfg, efflog, a, x)
             for i in range(cfg["ne"]):
 
                 @MethodMock.effect
-                def _(p=(a + i) % mod):
+                def _(p=(a + x + i) % mod):
                     efflog.append(p)
                     applied_at.append((edges[0] - 1, p))
 
-            return {"o": r}
+            return None if r is None else {"o": r}
 
         async def edge_counter(ctx):  # a process: settles before any testbench resumes after an edge
             async for _ in ctx.tick():
@@ -149,6 +160,7 @@ def simulate(case: Case) -> dict:
                 for n, (rdy, raw) in enumerate(c["phases"]):
                     if n and rows:  # the first cycle is only the half period before the first edge: no waiting
                         await ctx.delay(T / 4)
+                    pyx[0] = c["xs"][n]  # another testbench updating shared Python state: no signal changes
                     ctx.set(dut.rdy, rdy)
                     if raw is not None:
                         ctx.set(wr.en, raw[0])
@@ -178,7 +190,28 @@ def simulate(case: Case) -> dict:
                     events.append((edges[0] - 1, "t:-" if r is None else f"t:{int(r.o)}"))
 
         def add_mock():
-            sim.add_mock(MethodMock(circ.target.adapter, mocked, enable=lambda: next(men_iter), delay=delay))
+            if case.desc.get("bound"):
+                # a mock declared as a METHOD OF A TEST CLASS through def_method_mock, with a callable keyword
+                # (enable, bound to the instance) and non-callable ones (delay, a boolean method-body option)
+                class Holder:
+                    def __init__(self):
+                        self.tb = circ.target
+
+                    def en(self):
+                        return next(men_iter)
+
+                    @def_method_mock(lambda self: self.tb, enable=en, delay=delay, single_caller=True)
+                    def target_mock(self, a):
+                        return mocked(a)
+
+                mk = Holder().target_mock()
+                want = {"delay": delay, "single_caller": True}
+                got = {"delay": mk.delay, "single_caller": mk.adapter.kwargs.get("single_caller")}
+                if got != want:
+                    kwinfo.append(f"mock-keywords-declared={want}-effective={got}".replace(" ", ""))
+            else:
+                mk = MethodMock(circ.target.adapter, mocked, enable=lambda: next(men_iter), delay=delay)
+            sim.add_mock(mk)
 
         sim.add_process(edge_counter)
         if mock_first:
@@ -189,7 +222,7 @@ def simulate(case: Case) -> dict:
         if not mock_first:
             add_mock()
         sim.run()
-    res = dict(rows=rows, events=events, applied_at=applied_at, cfg=cfg, cycles=cycles)
+    res = dict(rows=rows, events=events, applied_at=applied_at, cfg=cfg, cycles=cycles, kwinfo=kwinfo)
     _last.update(key=key, res=res)
     return res
 
@@ -201,7 +234,7 @@ def impl(case: Case) -> list[str]:
         r = simulate(case)
     except Exception as e:  # noqa: BLE001 - an exception of the real code is an observation
         return [f"raise {type(e).__name__}"] + ["-"] * len(case.ops)
-    out = ["ok"]
+    out = [r["kwinfo"][0] if r["kwinfo"] else "ok"]
     for k, row in enumerate(r["rows"]):
         en, done, dout = row[0], row[1], row[2]
         app = ",".join(str(p) for kk, p in r["applied_at"] if kk == k) or "-"
@@ -219,6 +252,8 @@ def impl(case: Case) -> list[str]:
 def monitor(case: Case, out: list[str]) -> Optional[str]:
     if case.desc.get("mode") == "trig":
         return monitor_trig(case, out)
+    if out[0].startswith("mock-keywords"):
+        return f"keyword arguments of a class-level def_method_mock did not reach the MethodMock: {out[0]}"
     if out[0] != "ok":
         return f"the real testbench code raised: {out[0]}"
     r = simulate(case)  # deterministic; the monitor needs the independently sampled method signals
@@ -278,10 +313,13 @@ def monitor(case: Case, out: list[str]) -> Optional[str]:
         app = [p for kk, p in r["applied_at"] if kk == k]
         if trun[k]:
             a = targ[k]
-            want_ret = (cfg["ka"] * a + cfg["kb"] * len(log) + cfg["kc"] * sum(log)) % mod
+            x = r["cycles"][k]["xs"][-1]  # the shared Python state as it stands at the clock edge
+            fr = fn_ret(cfg, log, a, x)
+            want_ret = 0 if fr is None else fr  # a None answer is the all-zero result
             if tret[k] != want_ret:
-                return f"cycle {k}: mocked method ran with arg {a} after effects {log}: caller saw {tret[k]}, the function returns {want_ret}"
-            want = [(a + i) % mod for i in range(cfg["ne"])]
+                return (f"cycle {k}: mocked method ran with arg {a} after effects {log} with shared state {x}: caller saw "
+                        f"{tret[k]}, the function returns {fr}")
+            want = [(a + x + i) % mod for i in range(cfg["ne"])]
             if app != want:
                 return f"cycle {k}: mocked method ran with arg {a}: effects applied {app}, expected once {want}"
             if wrun[k] and wout[k] != (want_ret + r["cycles"][k]["val"]) % mod:
@@ -571,21 +609,36 @@ def directed_trig() -> list[Case]:
 # generators
 
 
-def mk_case(prog, fn, cycles, delay: str, mock_first: int, tag: str) -> Case:
+def mk_case(prog, fn, cycles, delay: str, mock_first: int, tag: str, bound: int = 0) -> Case:
     """cycles: list of (phases, men, val); phases: list of rdy | (rdy, en, data)"""
     e_of = DELAYS[delay][1]
     ops = []
-    for k, (phases, men, val) in enumerate(cycles):
+    for k, cyc in enumerate(cycles):
+        phases, men, val = cyc[:3]
+        xs = list(cyc[3]) if len(cyc) > 3 else [0, 0, 0]
         ps = ",".join(str(p) if isinstance(p, int) else f"{p[0]}x{p[1]}x{p[2]}" for p in phases)
         # the first cycle is the half period before the first edge: the mock enables at time 0, nothing is driven
-        ops.append(f"cyc p={ps} e={0 if k == 0 else e_of} men={men} val={val}")
+        e = 0 if k == 0 else e_of
+        # environment hypothesis: the shared state changes only before the mock's delay has elapsed
+        xs = [xs[min(j, e)] for j in range(3)] if k else [xs[0]] * 3
+        ops.append(f"cyc p={ps} e={e} men={men} val={val} x={xs[e]} xs={','.join(map(str, xs))}")
     cfg = f"cfg w={W} fn={','.join(map(str, fn))} prog={','.join(prog) or '-'}"
-    desc = {"delay": delay, "mock_first": mock_first, "mode": "cmd" if prog else "raw", "fn": list(fn)}
+    desc = {"delay": delay, "mock_first": mock_first, "mode": "cmd" if prog else "raw", "fn": list(fn), "bound": bound}
     return Case(cfg, ops, desc, tag)
 
 
 def _rand_fn(rng):
-    return (rng.choice([0, 1, 3]), rng.choice([0, 1, 5]), rng.choice([0, 1]), rng.choice([0, 1, 1, 2]))
+    return (rng.choice([1, 1, 3]), rng.choice([0, 1, 5]), rng.choice([0, 1]), rng.choice([0, 1, 1, 2]), rng.choice([0, 2, 3, 3]))
+
+
+def _rand_xs(rng, prev: int) -> list[int]:
+    """shared-state values after each of the three phases (mk_case freezes them once the mock's delay has elapsed)"""
+    xs = []
+    for _ in range(3):
+        if rng.random() < 0.35:
+            prev = rng.randrange(2**W)
+        xs.append(prev)
+    return xs
 
 
 def gen_cmd(rng, n: int, tag="random") -> Case:
@@ -604,8 +657,9 @@ def gen_cmd(rng, n: int, tag="random") -> Case:
     for _ in range(n - 1):
         r = int(rng.random() < pr)
         ph = [r, r, r] if rng.random() < 0.5 else [rng.randint(0, 1) for _ in range(3)]
-        cycles.append((ph, int(rng.random() < pe), rng.randrange(2**W)))
-    return mk_case(prog, _rand_fn(rng), cycles, rng.choice(list(DELAYS)), rng.randint(0, 1), tag)
+        xs = _rand_xs(rng, cycles[-1][3][-1] if len(cycles[-1]) > 3 else 0)
+        cycles.append((ph, int(rng.random() < pe), rng.randrange(2**W), xs))
+    return mk_case(prog, _rand_fn(rng), cycles, rng.choice(list(DELAYS)), rng.randint(0, 1), tag, rng.randint(0, 1))
 
 
 def gen_raw(rng, n: int, tag="random") -> Case:
@@ -622,8 +676,9 @@ def gen_raw(rng, n: int, tag="random") -> Case:
                 if rng.random() < 0.5:
                     d = rng.randrange(2**W)
             ph.append((int(rng.random() < 0.8), en, d))
-        cycles.append((ph, int(rng.random() < pe), rng.randrange(2**W)))
-    return mk_case([], _rand_fn(rng), cycles, rng.choice(list(DELAYS)), rng.randint(0, 1), tag)
+        xs = _rand_xs(rng, cycles[-1][3][-1] if len(cycles[-1]) > 3 else 0)
+        cycles.append((ph, int(rng.random() < pe), rng.randrange(2**W), xs))
+    return mk_case([], _rand_fn(rng), cycles, rng.choice(list(DELAYS)), rng.randint(0, 1), tag, rng.randint(0, 1))
 
 
 def directed() -> list[Case]:
@@ -635,14 +690,21 @@ def directed() -> list[Case]:
             cyc = [([0, 0, 0], 1, 0), ([0, 0, 0], 1, 1), ([1, 1, 0], 1, 2), ([0, 1, 1], 1, 3), ([1, 1, 1], 1, 4),
                    ([1, 1, 1], 1, 5), ([1, 1, 0], 1, 6), ([1, 1, 1], 0, 7), ([1, 1, 1], 1, 8), ([1, 1, 1], 1, 9),
                    ([1, 1, 1], 0, 10), ([1, 1, 1], 1, 11), ([1, 1, 1], 1, 12), ([1, 1, 1], 1, 13)]
-            out.append(mk_case(prog, (1, 1, 1, 2), cyc, delay, mf, "directed"))
+            # the mocked function answers None for some calls (after calls answered with a value)
+            out.append(mk_case(prog, (1, 1, 1, 2, 3), cyc, delay, mf, "directed", bound=mf))
             # raw: argument and enable glitch inside the cycle; request dropped before the edge; same arg held for
             # several cycles (no change of data_out between cycles)
             cyc = [([0, 0, 0], 1, 0), ([(1, 1, 3), (1, 1, 4), (1, 1, 5)], 1, 0), ([(1, 1, 5), (1, 1, 5), (1, 0, 5)], 1, 0),
                    ([(1, 1, 9), (1, 1, 9), (1, 1, 9)], 1, 0), ([(1, 1, 9), (1, 1, 9), (1, 1, 9)], 1, 0),
                    ([(1, 1, 9), (0, 1, 9), (1, 1, 9)], 1, 0), ([(1, 1, 9), (1, 1, 9), (1, 1, 9)], 0, 0),
                    ([(1, 0, 1), (1, 1, 2), (1, 1, 2)], 1, 0), ([(1, 1, 2), (1, 1, 2), (1, 1, 2)], 1, 0)]
-            out.append(mk_case([], (1, 5, 1, 1), cyc, delay, mf, "directed"))
+            out.append(mk_case([], (1, 5, 1, 1, 0), cyc, delay, mf, "directed", bound=1 - mf))
+            # class-level mock with delay: a held request (no wire changes) while another testbench updates the shared
+            # Python state after the edge; the mock must evaluate after its delay, i.e. with the updated state
+            hold = [(1, 1, 9)] * 3
+            cyc = [([0, 0, 0], 1, 0, [1, 1, 1]), (hold, 1, 0, [1, 5, 5]), (hold, 1, 0, [5, 5, 8]), (hold, 1, 0, [8, 2, 3]),
+                   (hold, 0, 0, [3, 3, 3]), (hold, 1, 0, [3, 6, 6]), (hold, 1, 0, [7, 7, 7])]
+            out.append(mk_case([], (1, 0, 1, 1, 2), cyc, delay, mf, "directed", bound=1))
     return out
 
 
